@@ -144,11 +144,19 @@ def diffArray : Seq → Seq → List Bool
 
 def diffCount (s t : Seq) : Nat := ((diffArray s t).filter id).length
 
-/-- `np.diff([0] + arr + [0]).nonzero()[0]` paired up: the code's run-length encoding -/
+/-- `np.diff(xs)` -/
+def npDiff : List Int → List Int
+  | a :: b :: r => (b - a) :: npDiff (b :: r)
+  | _ => []
+
+/-- `xs.nonzero()[0]`, indices counted from `i` -/
+def nonzeroFrom (i : Nat) : List Int → List Nat
+  | [] => []
+  | d :: ds => if d != 0 then i :: nonzeroFrom (i + 1) ds else nonzeroFrom (i + 1) ds
+
+/-- `np.diff([0] + arr + [0]).nonzero()[0]`: the code's run-length encoding, before pairing -/
 def diffOfPadded (arr : List Bool) : List Nat :=
-  let padded : List Int := 0 :: (arr.map (fun b => if b then (1 : Int) else 0)) ++ [0]
-  let ds := List.zipWith (fun a b => b - a) padded (padded.drop 1)
-  (List.range ds.length).filter (fun i => ds[i]! != 0)
+  nonzeroFrom 0 (npDiff (0 :: (arr.map (fun b => if b then (1 : Int) else 0)) ++ [0]))
 
 def pairUp : List Nat → List (Nat × Nat)
   | a :: b :: rest => (a, b) :: pairUp rest
